@@ -119,6 +119,8 @@ func runCheck(id, tier string) int {
 		return checkC13(tier)
 	case "C14":
 		return checkC14(tier)
+	case "C15":
+		return checkC15(tier)
 	case "C06":
 		return checkC06(tier)
 	case "C07":
